@@ -2,21 +2,24 @@
 # usage: tools/seedtest_scratch.sh <seed dir (patch.diff, meta.json)> <worktree of /repo> [tier]
 # Like seedtest.sh but without touching /repo: the patch is applied in <worktree>, a scratch copy of the
 # machinery (tools/scratch.sh) is pointed at it, the property's check runs there, everything is undone.
+# Optional 4th argument: run another property's check instead (result stored under "<tier>@<PID>").
 # Writes <seed dir>/result.json and <seed dir>/check_<tier>.log; prints one summary line.
 set -u
 D=$(realpath "$1"); WT=$(realpath "$2"); TIER=${3:-quick}
 PID=$(python3 -c "import json;print(json.load(open('$D/meta.json'))['property'])")
+KEY=$TIER
+if [ -n "${4:-}" ]; then PID=$4; KEY="$TIER@$4"; fi
 HERE=$(cd "$(dirname "$0")/.." && pwd)
 SC=/tmp/vs-$(basename "$D")-$$
 git -C "$WT" checkout -q -- . ; git -C "$WT" apply "$D/patch.diff" || { echo "$D: patch does not apply"; exit 2; }
 "$HERE/tools/scratch.sh" "$WT" "$SC" >/dev/null
 T0=$(date +%s)
-( cd "$SC" && VERIF_SEED=${VERIF_SEED:-1} ./check $PID --tier $TIER ) > "$D/check_$TIER.log" 2>&1; RC=$?
+( cd "$SC" && VERIF_SEED=${VERIF_SEED:-1} ./check $PID --tier $TIER ) > "$D/check_$KEY.log" 2>&1; RC=$?
 T1=$(date +%s)
 git -C "$WT" checkout -q -- .
 rm -rf "$SC"
-SIGS=$(grep "^  signature:" "$D/check_$TIER.log" | sed 's/^  signature: //' | sort -u | tr '\n' ';')
-python3 - "$D" "$PID" "$TIER" "$RC" "$((T1-T0))" "$SIGS" <<'PY'
+SIGS=$(grep "^  signature:" "$D/check_$KEY.log" | sed 's/^  signature: //' | sort -u | tr '\n' ';')
+python3 - "$D" "$PID" "$KEY" "$RC" "$((T1-T0))" "$SIGS" <<'PY'
 import json,sys
 d,pid,tier,rc,wall,sigs=sys.argv[1:7]
 p=d+'/result.json'
